@@ -30,7 +30,7 @@ ASSUMPTIONS = ["the theorems are about the model; the model is tied to the code 
 
 
 def correspond(run):
-    n = 800 if run.tier == "quick" else 8000
+    n = 800 if run.depth == "quick" else 8000
     rc, js, out, err = vlib.harness(["ord-cases", "--seed", run.seed, "--n", n, "--break-on-reject", sklib.flags_ord()], timeout=1200)
     if rc != 0 or js is None:
         run.oblige("correspondence:ord-cases", "correspondence", False, (out[-300:] + err[-300:]))
@@ -75,7 +75,7 @@ def correspond(run):
 
 
 def direct(run):
-    rc, js, out, err = vlib.harness(["ord-props", "--seed", run.seed, "--n", 400 if run.tier == "quick" else 6000], timeout=1800)
+    rc, js, out, err = vlib.harness(["ord-props", "--seed", run.seed, "--n", 400 if run.depth == "quick" else 6000], timeout=1800)
     if rc != 0 or js is None:
         run.oblige("direct:ord-props", "correspondence", False, (out[-300:] + err[-300:]))
         return
